@@ -52,10 +52,11 @@ func observe(c *Ctx, cs *Case, p *pager, what string) {
 func genEngine(c *Ctx) error {
 	c.Stats.Rule = "pager-simulator histories on a real primary Store/DB: rollback-journal transactions (DELETE/TRUNCATE/PERSIST, spills, rollbacks, grow/shrink across 256-page blocks) and WAL transactions (repeated pages, split frame writes, rolled-back frames, SQLite checkpoints with restart/truncate, LiteFS checkpoints), drop/recreate, export/snapshot; page sizes 512..65536. Non-trivial = history with at least 2 committed transactions; distinct = distinct op list."
 	r := c.Rng
-	nHist := 24
+	nHist := 60
 	if c.Tier == "thorough" {
-		nHist = 400
+		nHist = 600
 	}
+	walFocus, journalFocus := c.Flag("wal"), c.Flag("journal")
 	for h := 0; h < nHist; h++ {
 		ps := pick(r, enginePageSizes)
 		if ps == 65536 && r.Chance(2, 3) {
@@ -84,8 +85,33 @@ func genEngine(c *Ctx) error {
 		}
 		commits := 0
 		steps := r.Range(3, 10)
+		if walFocus {
+			steps = r.Range(6, 16)
+		}
 		fmt.Fprintf(&sig, "ps=%d,%s", ps, p.journalMode)
 		for i := 0; i < steps; i++ {
+			if len(p.img) > 0 && r.Chance(1, 12) && !c.Flag("nodrop") {
+				// delete the database, then create it again under the same name
+				do("drop")
+				p.dropped()
+				c.Count("drop")
+				sig.WriteString(",drop")
+				observe(c, cs, p, fmt.Sprintf("history %d step %d (drop)", h, i))
+				do("createdb")
+				continue
+			}
+			if commits > 0 && r.Chance(1, 10) {
+				if r.Bool() {
+					do(fmt.Sprintf("stray %d", r.Range(1, 5)))
+					c.Count("stray")
+				}
+				do("age")
+				do("retain")
+				c.Count("retain")
+				sig.WriteString(",ret")
+				observe(c, cs, p, fmt.Sprintf("history %d step %d (retention)", h, i))
+				continue
+			}
 			if !p.wal {
 				s := p.randomShape(maxGrow)
 				spill, rb := 0, 0
@@ -95,7 +121,14 @@ func genEngine(c *Ctx) error {
 				if r.Chance(1, 6) && len(p.img) > 0 {
 					rb = r.Range(1, 2)
 				}
-				toWAL := r.Chance(1, 5) && len(p.img) > 0 && rb == 0
+				if spill > 0 && r.Chance(1, 3) {
+					s.tempN = max(len(p.img), s.newN) + r.Range(1, 4)
+					c.Count("tx.journal.spill-beyond")
+				}
+				toWAL := r.Chance(1, 5) && len(p.img) > 0 && rb == 0 && !journalFocus
+				if walFocus && len(p.img) > 0 && rb == 0 {
+					toWAL = true
+				}
 				if toWAL {
 					p.wal = true // page 1 of this transaction carries the WAL version bytes
 					s.newN = max(s.newN, len(p.img))
@@ -119,9 +152,9 @@ func genEngine(c *Ctx) error {
 				fmt.Fprintf(&sig, ",j%d/%d/%d", s.newN, spill, rb)
 			} else {
 				switch {
-				case r.Chance(1, 6) && len(p.walPages) > 0:
-					restart := r.Bool()
-					p.sqliteCheckpoint(restart, restart && r.Bool())
+				case (r.Chance(1, 6) || (walFocus && r.Chance(1, 4))) && len(p.walPages) > 0:
+					restart := r.Chance(2, 3)
+					p.sqliteCheckpoint(restart, restart && r.Chance(1, 3))
 					c.Count("ckpt.sqlite")
 					fmt.Fprintf(&sig, ",ck%v", restart)
 				case r.Chance(1, 8):
